@@ -7,6 +7,8 @@ reply and, after every step, every tag's Attribute value is compared with a type
 """
 from __future__ import annotations
 
+from hypothesis import strategies as st
+
 from .. import common, sim, tagcheck
 from ..common import Stats
 
@@ -17,7 +19,8 @@ RULE = ('case = tag configuration (2..6 tags; 13 element types; scalar/array up 
         '(Read/Write Tag [Fragmented], Get/Set Attribute Single; symbolic or numeric path; two sessions); non-trivial = '
         'the history contains a successful read covering an element last written through a different service family, '
         'address form or alias name (state compared with the model after every step, so untouched neighbours are '
-        'verified each time)')
+        'verified each time); plus a few histories on one tag of 40000 elements (short reads/writes at start indices around 255/256 and '
+        '32767/32768 and anywhere above, each write re-read through the other address form and session)')
 ASSUMPTIONS = [
     'a second engine runs the same kind of histories over TCP against enip.main.main() itself (tags built by main() from its '
     'command line; one generated configuration per worker process, reset to the simulator\'s own initial values per history)',
@@ -38,8 +41,35 @@ def pred(case, stats):
     tagcheck.run_history(case, stats, PID, 'history')
 
 
+@st.composite
+def big_cases(draw, max_ops):
+    """One tag of 40000 elements (start indices in the upper half of the 16-bit element segment) next to a small one; valid
+    single-request reads and writes of short ranges anywhere in it, biased to the 255/256 and 32767/32768 index boundaries."""
+    t = draw(st.sampled_from(['SINT', 'INT', 'DINT']))
+    L = 40000
+    specs = [{'name': 'Big', 'type': t, 'length': L, 'address': None}, {'name': 'Nb', 'type': 'INT', 'length': 3, 'address': None}]
+    ops = []
+    for _ in range(draw(st.integers(2, max_ops))):
+        svc = draw(st.sampled_from(['read_tag', 'write_tag', 'write_tag', 'read_frag', 'write_frag']))
+        e = draw(st.one_of(st.integers(32760, 32775), st.integers(250, 260), st.integers(0, L - 20), st.integers(32768, L - 20)))
+        n = draw(st.integers(1, 12))
+        op = {'svc': svc, 'tag': 'Big', 'form': draw(st.sampled_from(['sym', 'sym', 'num'])), 'case': 0, 'sess': draw(st.integers(0, 1)),
+              'wrap': True, 'elem': e, 'count': n}
+        if svc in ('read_frag', 'write_frag'):
+            op['offset'] = 0
+        if svc in ('write_tag', 'write_frag'):
+            op['type'] = t
+            op['values'] = draw(st.lists(tagcheck.value_of(t), min_size=n, max_size=n))
+        ops.append(op)
+        if svc.startswith('write'):
+            ops.append(dict(op, svc='read_tag', sess=1 - op['sess'], form='num' if op['form'] == 'sym' else 'sym'))
+            for k in ('type', 'values', 'offset'):
+                ops[-1].pop(k, None)
+    return {'specs': specs, 'ops': ops}
+
+
 CLAUSES = {'history': pred, 'tcp-history': lambda case, stats: pred_tcp_replay(case, stats)}
-STRATEGIES = {'history': lambda max_ops: tagcheck.case_strategy('mixed', max_ops)}
+STRATEGIES = {'history': lambda k: big_cases(k[1]) if isinstance(k, (tuple, list)) else tagcheck.case_strategy('mixed', k)}
 
 
 # -- the same histories over TCP against enip.main.main() (one generated configuration per worker process): tagcheck.tcp_*
@@ -57,6 +87,11 @@ def tcp_shard(job):
 def shard(job):
     if job[0] == 'tcp':
         return tcp_shard(job)
+    if job[0] == 'big':
+        _, seed, i, n, max_ops = job
+        s = Stats()
+        common.hyp_run(s, big_cases(max_ops), pred, n, common.shard_seed(seed, 100 + i), 'history', PID, skey=('big', max_ops))
+        return s
     seed, i, n, max_ops = job
     s = Stats()
     common.hyp_run(s, tagcheck.case_strategy('mixed', max_ops), pred, n, common.shard_seed(seed, i), 'history', PID, skey=max_ops)
@@ -73,7 +108,7 @@ def pred_tcp_replay(case, stats):
 
 def run(tier, seed):
     if tier == 'thorough':
-        jobs = [(seed, i, 400, 60) for i in range(32)] + [('tcp', seed, i, 120, 40) for i in range(16)]
+        jobs = [(seed, i, 400, 60) for i in range(32)] + [('tcp', seed, i, 120, 40) for i in range(16)] + [('big', seed, i, 60, 12) for i in range(8)]
     else:
-        jobs = [(seed, i, 40, 25) for i in range(16)] + [('tcp', seed, i, 10, 20) for i in range(8)]
+        jobs = [(seed, i, 40, 25) for i in range(16)] + [('tcp', seed, i, 10, 20) for i in range(8)] + [('big', seed, i, 6, 8) for i in range(4)]
     return common.parallel(shard, jobs)
